@@ -17,6 +17,12 @@ STRENGTHENED = {
     "C15-2": "first caught only as a model/code disagreement; the clear-error-and-retry sequences give the failing input",
     "C04-1": "missed at first (libcurl's fragmentation is not controlled): the range server can now deliver multipart bodies in pieces ending exactly at each part's last data byte; also caught by C05",
     "C04-3": "missed at first; the range server can now use boundaries made of the punctuation RFC 2046 allows (apostrophe included); also caught by C05",
+    "C02-4": "missed at first by C02 and C14; C14 gained short-buffer requests (G<k>:<half>) and single partial zck_read calls in front of a request, with the first half of the chunk as expected answer",
+    "C02-5": "missed at first; re-sealed mutants with the boundary values 0 and 1 for the declared sizes (uncompressed 0/1, stored 0, both 0) were added",
+    "C01-4": "missed at first; minimum chunk sizes around the 10 MiB default maximum with no explicit maximum (a refusal of the option is accepted, a hang or a lossy file is not) and more than the minimum written into one chunk were added",
+    "C01-6": "a short write() is an I/O fault: outside what the C01 check explores, caught by the C12 fault schedules",
+    "C16-6": "missed at first by C16 (caught by C01 only as a model/code disagreement); C16 gained a tool part: the archive of `zck -s` must be byte-identical for every partition of the input into read() results",
+    "C05-6": "missed at first; sessions of several transfers (broken transfer, zck_dl_reset, retry) were added to model, harness and generator",
     "C01-3": "caught as HANG; the per-case watchdog was shortened so that the check stays fast",
 }
 
